@@ -5,6 +5,8 @@ package main
 
 import (
 	"fmt"
+	"strings"
+	"verif/lib/uimodel"
 
 	"verif/lib/ev"
 )
@@ -19,6 +21,26 @@ func main() {
 		}
 		var raw map[string]any
 		ev.LoadReplay(*ev.FlagReplay, &raw)
+		if _, isUI := raw["ui_start"]; isUI {
+			var u struct {
+				Start uimodel.Start `json:"ui_start"`
+				Keys  string        `json:"keys"`
+				H     int           `json:"height"`
+				Fail  bool          `json:"hook_fails_with_output"`
+			}
+			ev.LoadReplay(*ev.FlagReplay, &u)
+			faults, n, out := runFrames(uimodel.Build(), u.Start, u.Keys, u.H, u.Fail, func(f string, rows int) {
+				fmt.Printf("frame: %d lines on %d rows\n", strings.Count(f, "\n")+1, rows)
+			})
+			fmt.Printf("%d frames, panic=%q deadlock=%v\n", n, out.Panic, out.Deadlock)
+			for _, f := range faults {
+				r.Violation("ui-frame:height", map[string]any{"ui_start": u.Start, "keys": u.Keys, "height": u.H, "hook_fails_with_output": u.Fail, "msg": f})
+			}
+			r.Eval(1)
+			r.Distinct("x")
+			r.Distinct("y")
+			r.Finish()
+		}
 		geti := func(k string) int { f, _ := raw[k].(float64); return int(f) }
 		d.P, d.C, d.S, d.H = geti("prefix_lines"), geti("centred_lines"), geti("suffix_lines"), geti("height")
 		checkGeometry(r, d.P, d.C, d.S, d.H)
